@@ -410,7 +410,7 @@ def level0_deck(seed, n_cells=4, n_surfs=5, with_tr=True, with_macro=True, with_
                 d.trs[k] = rng.choice(ROTS)
             tr = k
         bc = ''
-        if with_bc and rng.random() < 0.15 and mn not in ('kz', 'k/x'):
+        if with_bc and rng.random() < (0.15 if mn not in ('kz', 'k/x') else 0.3):
             bc = rng.choice(['*', '+'])
         d.add_surf(Surf(sid, mn, params, tr, bc))
     if with_bc and rng.random() < 0.25:
@@ -800,7 +800,7 @@ def hex_deck(seed):
 
 # ------------------------------------------------------------------ directed decks
 
-N_DIRECTED = 7
+N_DIRECTED = 8
 
 
 def directed_deck(k):
@@ -842,6 +842,13 @@ def directed_deck(k):
         d.add_cell(Cell(50, 2, '-1.0', ('s', -4), imp=0, universe=5))
         d.add_cell(Cell(51, 4, '0.05', ('s', 4), imp=2, universe=5))
         d.materials.update({1: MATS[1], 2: MATS[2], 4: MATS[4]})
+        return d
+    if k == 7:      # a flagged one-sheet cone (cone + apex plane in TRIPOLI-4) bounding converted cells
+        d.add_surf(Surf(5, 'kz', [0.5, 1.0, 1.0], None, '*'))
+        d.add_cell(Cell(1, 1, '-2.70', ('*', ('s', -5), ('s', -2))))
+        d.add_cell(Cell(2, 2, '-1.0', ('*', ('s', 5), ('s', -2))))
+        d.add_cell(Cell(4, 0, None, ('s', 2), imp=0))
+        d.materials.update({1: MATS[1], 2: MATS[2]})
         return d
     d.add_cell(Cell(1, mats[0], rhos[0], ('s', -1)))
     d.add_cell(Cell(2, mats[1], rhos[1], ('*', ('s', 1), ('*', ('s', -2), plane_lo))))
